@@ -284,17 +284,22 @@ def run(rep: vlib.Reporter, tier: str, seed: int) -> None:
                     "non-trivial = the plan has an intra-group level split or a gated run had >= 2 concurrently enabled steps")
     rep.add("traces_validated_against_impl", len(recs) + len(gated_terms))
 
+    # the three planner-defect domains are decided in Coq (Model/PlanDefects.v classify_plan, related to the planner model by
+    # PlannerB_defects_sound_partial) on every exported plan - the SYNC preparation and each gated preparation; the Python
+    # predicates of harness/universe.py are only counted next to them
+    from harness import planner_b
+    all_plans = [r["plan"] for r in recs] + [g["plan"] for r in recs for g in r["gated"]]
+    coq_domains = {id(p_): c_ for p_, c_ in zip(all_plans, planner_b.classify(all_plans, rep_prefix="C01"))}
+
     def classify(i: int, plan: Dict[str, Any], what: str, replay: Dict[str, Any], gated: bool, vkey: str) -> bool:
         """Route a failure to a known-finding domain (narrow, decidable on the plan) or report it as a violation."""
-        if kf_tfs_partial_requirement(plan):
-            rep.finding("C01-tfs-partial-requirement", what, replay)
-            return False
-        if kf_tfs_missing(plan):
-            rep.finding("C01-tfs-missing", what, replay)
-            return False
-        if kf_framework_roundtrip(plan):
-            rep.finding("C01-framework-roundtrip-wrong-object", what, replay)
-            return False
+        dom = coq_domains.get(id(plan))
+        if dom is None:
+            dom = planner_b.classify([plan], rep_prefix="C01")[0]
+        for key_ in ("C01-tfs-partial-requirement", "C01-tfs-missing", "C01-framework-roundtrip-wrong-object"):
+            if key_ in dom:
+                rep.finding(key_, what, replay)
+                return False
         if gated and i in has_conflict and i in not_ip:
             rep.finding("C01-unordered-conflicting-steps", what, replay)
             return False
@@ -368,10 +373,8 @@ def run(rep: vlib.Reporter, tier: str, seed: int) -> None:
     for i, r in enumerate(recs):
         if dist["mp_runs"] >= n_mp:
             break
-        if r["sync"]["status"] != "ok" or kf_tfs_partial_requirement(r["plan"]) or kf_tfs_missing(r["plan"]) or kf_framework_roundtrip(r["plan"]):
+        if r["sync"]["status"] != "ok" or coq_domains.get(id(r["plan"])):
             continue
-        if any(st["kind"] == "TFS" and st["from_cfw"] != "PyArrowTable" for st in r["plan"]["steps"]):
-            continue            # C06-mp-transform-from-non-arrow-source
         fl = FileListener(str(vlib.BUILD / "C01" / f"mp_trace_{i}.jsonl"))
         uni = Universe(r["spec"], fl)
         sess = uni.prepare()
@@ -397,6 +400,7 @@ def run(rep: vlib.Reporter, tier: str, seed: int) -> None:
     dist["plans_in_kf_tfs_partial"] = sum(1 for r in recs if kf_tfs_partial_requirement(r["plan"]))
     dist["plans_in_kf_tfs_missing"] = sum(1 for r in recs if kf_tfs_missing(r["plan"]))
     dist["plans_in_kf_roundtrip"] = sum(1 for r in recs if kf_framework_roundtrip(r["plan"]))
+    dist["plans_in_coq_domains"] = sum(1 for r in recs if coq_domains.get(id(r["plan"])))
     rep.sample({"spec": recs[0]["spec"], "plan_steps": [(s["kind"], s["uuids"], s["req"]) for s in recs[0]["plan"]["steps"]],
                 "sync_begin_order": recs[0]["sync"]["begin"],
                 "gated_rounds": recs[0]["gated"][0]["rounds"] if recs[0]["gated"] else None})
